@@ -34,6 +34,19 @@ func genC20(seed uint64, index int, tier string) C20Cfg {
 		c.Concurrent = true
 		c.Deploy.QuietLog, c.Deploy.QuietRec = true, true
 		c.Strategy = pickStr(r, []string{"uniform", "bursty", "lifo-links", "starve-node", "acks-first", "pct"})
+		// a third of these runs: an honest party's call gives up (its context is cancelled) in the very step in which a
+		// protocol message is dispatched into it
+		if rc := prng.Derive(seed, "cancel-joined"); rc.Bool(0.33) {
+			for _, id := range c.Deploy.IDs {
+				if id != c.Culprit {
+					c.CancelNode = id
+					if rc.Bool(0.5) {
+						break
+					}
+				}
+			}
+			c.CancelAfter = rc.Range(1, 40)
+		}
 		return C20Cfg{Kind: "dkg-byz", Sub: mustJSON(c)}
 	}
 	c := genC12(seed, tier)
